@@ -220,7 +220,7 @@ def _mod_class():
 class World:
     _root = None
 
-    def __init__(self, hw='fin'):
+    def __init__(self, hw='fin', detailed=False):
         mod = _mod_class()
         import mlzlog
         from frappy.logging import RemoteLogHandler
@@ -235,7 +235,7 @@ class World:
         class Srv:
             restart = shutdown = None
             module_cfg = {}
-            detailed_errors = False
+            detailed_errors = detailed
         self.srv = srv = Srv()
         srv.log = LoggerStub('srv')
         srv.secnode = SecNode('node', LoggerStub('secnode'), {}, srv)
@@ -341,9 +341,9 @@ class FakeSocket:
             self.outacc = b''
 
 
-def run_stream(segments, hw='fin', other='idle'):
+def run_stream(segments, hw='fin', other='idle', detailed=False):
     """one connection fed with the segments, a second connection on the same dispatcher watching"""
-    w = World(hw)
+    w = World(hw, detailed)
     s2 = FakeSocket([b'activate\n'] if other == 'active' else [], role='other', active=other == 'active')
     h2 = w.connect(s2)
     h2.handle()
@@ -523,15 +523,18 @@ def _fuzz(seed):
     hw = rnd.choice(['fin', 'fin', 'fin', 'nan', 'inf'])
     other = rnd.choice(['idle', 'active'])
     segs = list(segmentations(stream, rnd))[rnd.choice([0, 1, 2, 2, 2])]
-    w, _ = run_stream(segs, hw=hw, other=other)
+    detailed = rnd.random() < 0.2          # Interface option detailed_errors
+    w, _ = run_stream(segs, hw=hw, other=other, detailed=detailed)
     # NonInterference on the stream as the handler saw it
     real = stream.split(b'\n')[:-1]
     mal = [a_in(x)['mal'] for x in real]
     if any(mal) and not all(mal):
-        w2, _ = run_stream([b''.join(x + b'\n' for x, m in zip(real, mal) if not m)], hw=hw, other='idle')
+        w2, _ = run_stream([b''.join(x + b'\n' for x, m in zip(real, mal) if not m)], hw=hw, other='idle',
+                           detailed=detailed)
         w.events.append({'ev': 'ni', 'ref': answers(w2.events)})
         w.raw.append('ni')
     return {'trace': w.events, 'raw': w.raw, 'stream': stream.decode('latin-1'), 'hw': hw, 'other': other,
+            'detailed': detailed,
             'seg': [None if s is None else len(s) for s in segs]}
 
 
@@ -856,12 +859,18 @@ def run(chk):
                               maximal_only=False, timeout=1800)
     chk.add_tlc(r)
     cat = r.printed('CAT')[0]
+    spec_classes = set(cat.pop('SECoPClasses'))
     for c, req in sorted(cat.items()):
         mine = a_in(CLASSES[c])
         if req['act'] in ('LONG', 'NONASCII'):
             req = dict(req, act=mine['act'])
         if mine != req:
             raise MachineryError(f'line class {c}: alpha_in(gamma) = {mine} but Wire!Cat says {req}')
+    from frappy.errors import SECoPError
+    for cls in SECoPError.clsname2class.values():       # "one of the SECoP classes of frappy/errors.py"
+        if cls.name not in spec_classes:
+            chk.violation({'module': 'Wire', 'clause': 'ErrorClassIsSECoP', 'errors_py_class': cls.__name__},
+                          {'kind': 'errors.py', 'name': cls.name, 'allowed': sorted(spec_classes)})
     if set(cat) != set(CLASSES):
         raise MachineryError('catalogue of Wire.tla and CLASSES differ: %s' % (set(cat) ^ set(CLASSES)))
     items = [([s['cls'] for s in b], chk.seed * 1000003 + i) for i, b in enumerate(behs)]
@@ -889,7 +898,7 @@ def run(chk):
         for sd in part:
             chk.case(('Z', sd), True)
         groups.append(('fuzz', [x['trace'] for x in res], lambda i, res=res, part=part: {
-            'seed': part[i], **{k: res[i][k] for k in ('raw', 'stream', 'hw', 'other', 'seg')}}))
+            'seed': part[i], **{k: res[i][k] for k in ('raw', 'stream', 'hw', 'other', 'seg', 'detailed')}}))
         chk.sample({'fuzz_stream': res[0]['stream'][:200], 'seg': res[0]['seg']})
         flush(30000)
 
@@ -966,7 +975,8 @@ def replay(chk, rep):
         print('direct comparison:', x['bad'])
     elif kind == 'fuzz':
         x = _fuzz(d['seed'])
-        print('stream', x['stream'].encode('latin-1'), 'segments', x['seg'], 'hw', x['hw'], 'other', x['other'])
+        print('stream', x['stream'].encode('latin-1'), 'segments', x['seg'], 'hw', x['hw'], 'other', x['other'],
+              'detailed_errors', x['detailed'])
         for e, rw in zip(x['trace'], x['raw']):
             print('  ', e['ev'], rw)
     elif kind == 'threads':
